@@ -134,7 +134,7 @@ def dx_cfgs():
     c = []
     for op, lim in ((2, 6), (2, 4), (1, 8), (1, 5)):
         bs = 8 + 8 * lim
-        c.append({"OP": op, "LIMIT": lim,
+        c.append({"OP": op, "LIMIT": lim, "_backends": ["kissat", "z3"] if op == 1 else ["default", "kissat"],
                   "_unwindset": ["main.%d:%d" % (i, bs + 2) for i in range(10)] +
                                 ["dx_search_entry.0:%d" % (lim.bit_length() + 2), "memmove.0:%d" % (bs + 1),
                                  "stub_write_blk64.0:%d" % (bs + 1), "stub_write_blk64.1:2"]})
@@ -223,7 +223,7 @@ HARNESSES.append(
 
 def split_cfgs():
     c = []
-    for lay, nls, cs, tier in (((12, 12, 12), (4, 1, 3), 0, "quick"), ((12, 12, 12, 12), (4, 1, 3, 2), 0, "thorough"), ((16, 12, 20), (5, 4, 9), 0, "quick"),
+    for lay, nls, cs, tier in (((12, 12, 12), (4, 1, 3), 0, "quick"), ((12, 12, 12, 12), (4, 1, 3, 2), 0, "thorough"), ((16, 12, 20), (5, 4, 9), 0, "thorough"),
                                ((24, 12, 12), (12, 2, 4), 0, "thorough"), ((12, 12, 12), (2, 4, 3), 1, "quick"), ((16, 16, 16), (8, 3, 6), 1, "thorough"),
                                ((12, 16, 12, 24), (3, 7, 4, 10), 0, "thorough"), ((12, 12, 12, 12, 12), (1, 2, 3, 4, 4), 0, "thorough")):
         bs = sum(lay) + 12 * cs
@@ -240,6 +240,7 @@ def split_cfgs():
              "memcpy.0:%d" % (bs + 1), "memmove.0:%d" % (bs + 1), "memset.0:%d" % (bs + 1),
              "stub_write_blk64.0:%d" % (bs + 1), "stub_write_blk64.1:4"]
         d["_tier"] = tier
+        d["_backends"] = ["default"] if tier == "quick" else ["default", "kissat"]
         c.append(d)
     return c
 
